@@ -114,8 +114,16 @@ func scenarioC12(x *runner.X) {
 		x.Failf("harness", "file set", "%v", err)
 		return
 	}
-	target := t.Intn(8)
-	names := []string{"ipld-node", "car-stream", "compact-index", "sig-exists", "slot-to-blocktime", "gsfa-files", "tx-metadata", "epoch-load-and-query"}
+	target := 0
+	switch u := t.Intn(100); {
+	case u == 0:
+		target = 8 // a whole sweep per run: rare
+	case u <= 3:
+		target = 9
+	default:
+		target = (u - 4) % 8
+	}
+	names := []string{"ipld-node", "car-stream", "compact-index", "sig-exists", "slot-to-blocktime", "gsfa-files", "tx-metadata", "epoch-load-and-query", "header-field-sweep", "frame-dag"}
 	x.Note("target", names[target])
 	desc := ""
 	var inputLen int
@@ -328,6 +336,117 @@ func scenarioC12(x *runner.X) {
 				var m indexmeta.Meta
 				m.UnmarshalBinary(bad)
 			})
+		case 8:
+			// every offset of the file's head x every width/byte order x every special value (powers
+			// of two around the overflow points of size computations included): one run enumerates
+			// the whole set for one file kind
+			role := []string{"cid_to_offset_and_size", "slot_to_cid", "sig_to_cid", "sig_exists", "slot_to_blocktime"}[t.Intn(5)]
+			full, _ := os.ReadFile(set.files[role])
+			desc = role + ": header-field sweep"
+			open := func(bad []byte) {
+				rd := &c12ra{b: bad}
+				switch role {
+				case "cid_to_offset_and_size":
+					if ix, err := indexes.OpenWithReader_CidToOffsetAndSize(rd); err == nil {
+						ix.Meta()
+						for i, o := range w.Objects {
+							if i < 3 {
+								ix.Get(o.Cid)
+							}
+						}
+					}
+				case "slot_to_cid":
+					if ix, err := indexes.OpenWithReader_SlotToCid(rd); err == nil {
+						ix.Get(w.Blocks[0].Slot)
+						ix.Get(w.FirstSlot + 12345)
+					}
+				case "sig_to_cid":
+					if ix, err := indexes.OpenWithReader_SigToCid(rd); err == nil {
+						ix.Get(w.Txs[0].Sig())
+					}
+				case "sig_exists":
+					if rd, err := bucketteer.NewReader(rd); err == nil {
+						rd.Meta()
+						rd.Has(w.Txs[0].Sig())
+						rd.Has(w.Txs[len(w.Txs)-1].Sig())
+					}
+				default:
+					if ix, err := blocktimeindex.FromBytes(bad); err == nil {
+						ix.Get(w.Blocks[0].Slot)
+						ix.Get(w.Blocks[len(w.Blocks)-1].Slot)
+					}
+				}
+			}
+			v64 := []uint64{1 << 62, 1 << 63, 1<<62 + 1, 1<<62 + 2, 1 << 61, 1<<63 + 1, ^uint64(0), 1 << 32, 1<<64 - 4}
+			v32 := []uint32{1 << 30, 1 << 31, 1<<30 + 1, 1<<31 + 1, ^uint32(0)}
+			head := mini(len(full), 80)
+		sweep:
+			for pos := 0; pos < head; pos++ {
+				for _, be := range []bool{false, true} {
+					for _, v := range v64 {
+						if pos+8 > len(full) {
+							continue
+						}
+						bad := append([]byte(nil), full...)
+						if be {
+							binary.BigEndian.PutUint64(bad[pos:], v)
+						} else {
+							binary.LittleEndian.PutUint64(bad[pos:], v)
+						}
+						if run(fmt.Sprintf("u64 at %d = %#x (big endian: %v)", pos, v, be), len(bad), func() { open(bad) }) {
+							break sweep
+						}
+					}
+					for _, v := range v32 {
+						if pos+4 > len(full) {
+							continue
+						}
+						bad := append([]byte(nil), full...)
+						if be {
+							binary.BigEndian.PutUint32(bad[pos:], v)
+						} else {
+							binary.LittleEndian.PutUint32(bad[pos:], v)
+						}
+						if run(fmt.Sprintf("u32 at %d = %#x (big endian: %v)", pos, v, be), len(bad), func() { open(bad) }) {
+							break sweep
+						}
+					}
+				}
+			}
+		case 9:
+			// a multi-node corruption: data frames whose `next` lists name the same successor twice, to
+			// a depth at which a reassembly that follows every link would do exponential work. The
+			// answer must be an error (or the payload) after work proportional to the number of frames.
+			depth := t.Range(18, 22)
+			desc = fmt.Sprintf("frame DAG with duplicated links, depth %d", depth)
+			frames := map[string][]byte{}
+			var next []cid.Cid
+			for i := depth; i >= 1; i-- {
+				_, raw := world.LegacyFrame([]byte{byte(i)}, next)
+				c := world.CidOf(raw)
+				frames[c.KeyString()] = raw
+				next = []cid.Cid{c, c}
+			}
+			head, _ := world.LegacyFrame([]byte{0}, next)
+			fetches := 0
+			bounded := true
+			run("reassemble", depth*64, func() {
+				tooling.LoadDataFromDataFrames(&head, func(ctx context.Context, c cid.Cid) (*ipldbindcode.DataFrame, error) {
+					fetches++
+					if fetches > 200*depth {
+						bounded = false
+						return nil, fmt.Errorf("too many fetches")
+					}
+					raw, ok := frames[c.KeyString()]
+					if !ok {
+						return nil, fmt.Errorf("no such frame")
+					}
+					return iplddecoders.DecodeDataFrame(raw)
+				})
+			})
+			if !bounded {
+				x.Failf("oracle", "corrupted frame-dag: work out of proportion to the input", "%s: more than %d frame fetches for %d stored frames", desc, 200*depth, depth)
+			}
 		default:
 			// a copy of the epoch directory with one file corrupted: load and query through the server
 			role := c10roles[t.Intn(5)]
